@@ -285,6 +285,10 @@ def weave_fn(text, spec, unit_name, probe=False):
         offs.append(o)
         o += len(ln) + 1
     for g in spec.get('ghost', []):
+        if g.get('at_end'):
+            # proof block as the last statement of the function body (before its closing brace)
+            w.insert(body_close, ''.join('    ' + x + '\n' for x in g['text'].strip('\n').split('\n')), 'proof block at the end of the body')
+            continue
         if 'before_re' in g:
             # lenient anchor: a regular expression on the trimmed source line, so that an edit elsewhere on the
             # line (the kind of change a contract is supposed to notice) does not lose the anchor
